@@ -1,11 +1,493 @@
-// Package c15 is the correspondence/oracle harness for property C15.
+// Package c15: Markdown output keeps table, heading and list structure intact.
+//
+// Three streams:
+//  1. direct: generated tables through the six table writers (model.Table, docx, odt, xlsx,
+//     pptx, htmldoc ParsedTable.ToMarkdown); op = the writer's output vs the Lean render; oracle =
+//     the harness's own GFM reader (gfm.go) gives back rows x columns x cell text.
+//  2. levels: every (level, offset, max) of a bounded box through rag.MarkdownOptions /
+//     rag.Chunk; oracle = clamp formula of the property text.
+//  3. documents: generated documents (headings of all levels, nested lists, tables with merged
+//     cells, paragraphs) written as DOCX, ODT, PPTX, HTML (docwriters.go) and XLSX (writers.XLSX),
+//     read through <format>.Reader.MarkdownWithRAGOptions and tabula.Open(f).ToMarkdownWithOptions
+//     under all Markdown options; oracle = the harness's Markdown reader (mdread.go).
 package c15
 
-import "verifharness/hx"
+import (
+	"fmt"
+	"strconv"
+	"strings"
+
+	"github.com/tsawler/tabula/docx"
+	"github.com/tsawler/tabula/htmldoc"
+	"github.com/tsawler/tabula/model"
+	"github.com/tsawler/tabula/odt"
+	"github.com/tsawler/tabula/pptx"
+	"github.com/tsawler/tabula/xlsx"
+
+	"verifharness/hx"
+)
 
 func init() { hx.Register("C15", Run, Replay) }
 
-// Run is not built yet for this property.
-func Run(c *hx.Ctx) { c.Note("C15: harness not built") }
+var tableWriters = []string{"model", "docx", "odt", "xlsx", "pptx", "html"}
 
-func Replay(c *hx.Ctx, kase map[string]interface{}) {}
+const nbsp = "\u00a0"
+
+// cellAtoms: what cells are made of. No backslash (DESIGN Appendix C), no CR; non-ASCII spaces
+// only between letters (the model trims ASCII white space, docx/odt use strings.TrimSpace).
+var cellAtoms = []string{"a", "b", "xyz", "|", "||", "\n", " ", "  ", "x y", "é", "日本", "😀", "-", ":", "*", "_x_", "#", "<b>", "&", "1.", "---", ":-:", "\t", "0", "`", "[l](u)", "a" + nbsp + "b"}
+
+func genCell(r *hx.Rng) string {
+	switch r.Intn(10) {
+	case 0:
+		return ""
+	case 1:
+		return hx.Pick(r, []string{"|", "a|b", "|a", "a|", "a\nb", "\n", " ", " a ", "a||b", "| |", "a |\n| b", "--- | ---"})
+	}
+	n := r.Range(1, 5)
+	var sb strings.Builder
+	for i := 0; i < n; i++ {
+		a := hx.Pick(r, cellAtoms)
+		if a == " " && (i == 0 || i == n-1) {
+			a = "n" // non-ASCII spaces only inside a cell (model trims ASCII white space)
+		}
+		sb.WriteString(a)
+	}
+	return sb.String()
+}
+
+func genTable(r *hx.Rng) [][]string {
+	rows, cols := r.Range(1, 5), r.Range(1, 5)
+	if r.Chance(1, 15) {
+		rows, cols = r.Range(6, 14), r.Range(6, 12)
+	}
+	t := make([][]string, rows)
+	for i := range t {
+		t[i] = make([]string, cols)
+		for j := range t[i] {
+			t[i][j] = genCell(r)
+		}
+	}
+	return t
+}
+
+// normCell is the property's cell normalisation: newline -> space, trimmed.
+func normCell(s string) string { return strings.TrimSpace(strings.ReplaceAll(s, "\n", " ")) }
+
+// writeTable sends a plain table through writer w.
+func writeTable(w string, t [][]string) string {
+	switch w {
+	case "model":
+		mt := &model.Table{}
+		for _, row := range t {
+			var cells []model.Cell
+			for _, c := range row {
+				cells = append(cells, model.Cell{Text: c, RowSpan: 1, ColSpan: 1})
+			}
+			mt.Rows = append(mt.Rows, cells)
+		}
+		return mt.ToMarkdown()
+	case "docx":
+		pt := &docx.ParsedTable{}
+		for _, row := range t {
+			var pr docx.ParsedTableRow
+			for _, c := range row {
+				pr.Cells = append(pr.Cells, docx.ParsedTableCell{Text: c, ColSpan: 1, RowSpan: 1})
+			}
+			pt.Rows = append(pt.Rows, pr)
+		}
+		return pt.ToMarkdown()
+	case "odt":
+		pt := &odt.ParsedTable{}
+		for _, row := range t {
+			var pr odt.ParsedTableRow
+			for _, c := range row {
+				pr.Cells = append(pr.Cells, odt.ParsedTableCell{Text: c, ColSpan: 1, RowSpan: 1})
+			}
+			pt.Rows = append(pt.Rows, pr)
+		}
+		return pt.ToMarkdown()
+	case "xlsx":
+		pt := xlsx.ParsedTable{Headers: t[0], Rows: t[1:]}
+		return pt.ToMarkdown()
+	case "pptx":
+		pt := &pptx.Table{Columns: len(t[0])}
+		for _, row := range t {
+			var cells []pptx.TableCell
+			for _, c := range row {
+				cells = append(cells, pptx.TableCell{Text: c, RowSpan: 1, ColSpan: 1})
+			}
+			pt.Rows = append(pt.Rows, cells)
+		}
+		return pt.ToMarkdown()
+	case "html", "html-noth":
+		// html-noth: a table without <th>/<thead> (HasHeader false); same rows expected
+		pt := &htmldoc.ParsedTable{HasHeader: w == "html"}
+		for i, row := range t {
+			var cells []htmldoc.TableCell
+			for _, c := range row {
+				cells = append(cells, htmldoc.TableCell{Text: c, IsHeader: i == 0 && w == "html", RowSpan: 1, ColSpan: 1})
+			}
+			pt.Rows = append(pt.Rows, cells)
+		}
+		return pt.ToMarkdown()
+	}
+	panic("writer " + w)
+}
+
+// writeSpanTable sends a table with merged cells through the docx or odt writer.
+func writeSpanTable(w string, t [][]Cell) string {
+	if w == "html" {
+		// what htmldoc.parseTable builds: one TableCell per <td>/<th> with its colspan; cells
+		// covered by a rowspan from above do not exist in HTML
+		pt := &htmldoc.ParsedTable{HasHeader: true}
+		for i, row := range t {
+			cells := []htmldoc.TableCell{}
+			for _, c := range row {
+				if !c.VCont {
+					cells = append(cells, htmldoc.TableCell{Text: c.Text, IsHeader: i == 0, RowSpan: 1, ColSpan: span(c)})
+				}
+			}
+			pt.Rows = append(pt.Rows, cells)
+		}
+		return pt.ToMarkdown()
+	}
+	if w == "docx" {
+		pt := &docx.ParsedTable{}
+		for _, row := range t {
+			var pr docx.ParsedTableRow
+			for _, c := range row {
+				pr.Cells = append(pr.Cells, docx.ParsedTableCell{Text: c.Text, ColSpan: c.ColSpan, RowSpan: 1, IsMergedContinuation: c.VCont})
+			}
+			pt.Rows = append(pt.Rows, pr)
+		}
+		return pt.ToMarkdown()
+	}
+	pt := &odt.ParsedTable{}
+	for _, row := range t {
+		var pr odt.ParsedTableRow
+		for _, c := range row {
+			pr.Cells = append(pr.Cells, odt.ParsedTableCell{Text: c.Text, ColSpan: c.ColSpan, RowSpan: 1, IsCovered: c.VCont})
+		}
+		pt.Rows = append(pt.Rows, pr)
+	}
+	return pt.ToMarkdown()
+}
+
+func encTable(t [][]string) string {
+	rows := make([]string, len(t))
+	for i, row := range t {
+		rows[i] = hx.HexList(row)
+	}
+	return strings.Join(rows, ";")
+}
+
+func encSpanTable(t [][]Cell) string {
+	rows := make([]string, len(t))
+	for i, row := range t {
+		cs := make([]string, len(row))
+		for j, c := range row {
+			cont := 0
+			if c.VCont {
+				cont = 1
+			}
+			cs[j] = fmt.Sprintf("%s:%d:%d", hx.HexS(c.Text), c.ColSpan, cont)
+		}
+		rows[i] = strings.Join(cs, ",")
+	}
+	return strings.Join(rows, ";")
+}
+
+func encGrid(rows [][]string, ok bool) string {
+	if !ok {
+		return "none"
+	}
+	return "ok " + encTable(rows)
+}
+
+type tabCase struct {
+	Kind   string     `json:"kind"`
+	Writer string     `json:"writer"`
+	Table  [][]string `json:"table,omitempty"`
+	Span   [][]Cell   `json:"span,omitempty"`
+}
+
+// checkGrid compares what the GFM reader sees in md with the authored grid.
+func checkGrid(c *hx.Ctx, w, md string, want [][]string, kase interface{}) {
+	checkGridEq(c, w, md, want, kase, func(a, b string) bool { return a == b })
+}
+
+// checkGridEq: same, with the cell comparison given (documents compare modulo white-space runs,
+// which word-processor formats do not keep).
+func checkGridEq(c *hx.Ctx, w, md string, want [][]string, kase interface{}, eq func(a, b string) bool) {
+	got, ok := GFMTable(strings.Split(md, "\n"))
+	shapeOK := ok && len(got) == len(want)
+	if shapeOK {
+		for i := range want {
+			if len(got[i]) != len(want[i]) {
+				shapeOK = false
+			}
+		}
+	}
+	// rows as emitted must all have the header's cell count (before GFM pads/truncates)
+	if shapeOK {
+		for _, line := range strings.Split(strings.TrimRight(md, "\n"), "\n") {
+			if len(GFMSplitRow(line)) != len(want[0]) {
+				shapeOK = false
+			}
+		}
+	}
+	c.Check("C15/table-shape-"+w, shapeOK, kase, func() string {
+		return fmt.Sprintf("authored %dx%d table, GFM reader sees ok=%v %q in %q", len(want), len(want[0]), ok, got, md)
+	})
+	if !shapeOK {
+		return
+	}
+	cellsOK, detail := true, ""
+	for i := range want {
+		for j := range want[i] {
+			if !eq(got[i][j], want[i][j]) && cellsOK {
+				cellsOK = false
+				detail = fmt.Sprintf("cell (%d,%d) reads %q, authored (normalised) %q; markdown %q", i, j, got[i][j], want[i][j], md)
+			}
+		}
+	}
+	c.Check("C15/table-cell-"+w, cellsOK, kase, func() string { return detail })
+}
+
+func normGrid(t [][]string) [][]string {
+	g := make([][]string, len(t))
+	for i, row := range t {
+		g[i] = make([]string, len(row))
+		for j, s := range row {
+			g[i][j] = normCell(s)
+		}
+	}
+	return g
+}
+
+// spanGrid is the grid a merged-cell table denotes: text at the first grid column of each
+// cell, empty under the other columns it spans and under continuations, padded to the width.
+func spanGrid(t [][]Cell) [][]string {
+	width := 0
+	for _, row := range t {
+		n := 0
+		for _, c := range row {
+			n += span(c)
+		}
+		if n > width {
+			width = n
+		}
+	}
+	g := make([][]string, len(t))
+	for i, row := range t {
+		for _, c := range row {
+			if c.VCont {
+				for k := 0; k < span(c); k++ {
+					g[i] = append(g[i], "")
+				}
+				continue
+			}
+			g[i] = append(g[i], normCell(c.Text))
+			for k := 1; k < span(c); k++ {
+				g[i] = append(g[i], "")
+			}
+		}
+		for len(g[i]) < width {
+			g[i] = append(g[i], "")
+		}
+	}
+	return g
+}
+
+func runPlainTable(c *hx.Ctx, w string, t [][]string, oracle bool) {
+	kase := tabCase{Kind: "table", Writer: w, Table: t}
+	var md string
+	if p := hx.Safe(func() { md = writeTable(w, t) }); p != "" {
+		c.Check("C15/panic", false, kase, func() string { return w + " ToMarkdown: " + p })
+		return
+	}
+	if w == "docx" || w == "odt" {
+		st := make([][]Cell, len(t))
+		for i, row := range t {
+			for _, s := range row {
+				st[i] = append(st[i], Cell{Text: s, ColSpan: 1})
+			}
+		}
+		c.Op("c15.mdspan "+w+" "+encSpanTable(st), hx.HexS(md))
+	} else {
+		c.Op("c15.mdtab "+strings.TrimSuffix(w, "-noth")+" "+encTable(t), hx.HexS(md))
+	}
+	first := md
+	if i := strings.IndexByte(md, '\n'); i >= 0 {
+		first = md[:i]
+	}
+	if w != "docx" && w != "odt" && w != "html-noth" {
+		c.Op("c15.mdrow "+w+" "+hx.HexList(t[0]), hx.HexS(first))
+	}
+	// the harness reader and the Lean reading spec agree on what the implementation wrote
+	got, ok := GFMTable(strings.Split(md, "\n"))
+	c.Op("c15.gfm "+hx.HexS(md), encGrid(got, ok))
+	if oracle {
+		checkGrid(c, w, md, normGrid(t), kase)
+	}
+}
+
+func genSpanTable(r *hx.Rng) [][]Cell {
+	rows, width := r.Range(1, 5), r.Range(1, 5)
+	t := make([][]Cell, rows)
+	for i := range t {
+		col := 0
+		for col < width {
+			c := Cell{Text: genCell(r), ColSpan: 1}
+			if r.Chance(1, 4) && width-col >= 2 {
+				c.ColSpan = r.Range(2, width-col)
+			}
+			if i > 0 && r.Chance(1, 6) {
+				c.VCont, c.Text = true, ""
+			}
+			if r.Chance(1, 25) {
+				c.ColSpan = 0 // parsers never produce it, ToMarkdown treats < 1 as 1
+			}
+			t[i] = append(t[i], c)
+			col += span(c)
+		}
+		if r.Chance(1, 6) && len(t[i]) > 1 {
+			t[i] = t[i][:len(t[i])-1] // a short row: padded by the writer
+		}
+	}
+	return t
+}
+
+func runSpanTable(c *hx.Ctx, w string, t [][]Cell) {
+	kase := tabCase{Kind: "span", Writer: w, Span: t}
+	var md string
+	if p := hx.Safe(func() { md = writeSpanTable(w, t) }); p != "" {
+		c.Check("C15/panic", false, kase, func() string { return w + " ToMarkdown: " + p })
+		return
+	}
+	c.Op("c15.mdspan "+w+" "+encSpanTable(t), hx.HexS(md))
+	got, ok := GFMTable(strings.Split(md, "\n"))
+	c.Op("c15.gfm "+hx.HexS(md), encGrid(got, ok))
+	checkGrid(c, "merged-"+w, md, spanGrid(t), kase)
+}
+
+func direct(c *hx.Ctx) {
+	// fixed witnesses first (B14, F5, CR handling)
+	fixed := [][][]string{
+		{{"a|b"}},
+		{{"h1", "h2"}, {"a|b", "c\nd"}, {"", " x "}},
+		{{"|"}, {"||"}, {"\n"}},
+		{{"a", "b", "c"}},
+	}
+	for _, t := range fixed {
+		for _, w := range tableWriters {
+			runPlainTable(c, w, t, true)
+		}
+		c.Case(encTable(t), true)
+	}
+	// carriage returns: compared with the model only (CR is not in the property's list)
+	for _, w := range tableWriters {
+		runPlainTable(c, w, [][]string{{"a\rb", "c\r\nd"}, {"\r", "x\r"}}, false)
+	}
+	for _, w := range []string{"docx", "odt", "html"} {
+		runSpanTable(c, w, [][]Cell{{{Text: "A", ColSpan: 2}, {Text: "B", ColSpan: 1}}, {{Text: "c", ColSpan: 1}, {Text: "d", ColSpan: 1}, {Text: "e", ColSpan: 1}}})
+		runSpanTable(c, w, [][]Cell{{{Text: "A", ColSpan: 1}, {Text: "B", ColSpan: 1}}, {{VCont: true, ColSpan: 1}, {Text: "x", ColSpan: 1}}})
+	}
+	n := c.N(400, 6000)
+	for i := 0; i < n; i++ {
+		r := c.Rng.Fork(uint64(1)<<40 | uint64(i))
+		t := genTable(r)
+		for _, w := range tableWriters {
+			runPlainTable(c, w, t, true)
+		}
+		if i%4 == 0 {
+			runPlainTable(c, "html-noth", t, true)
+		}
+		nontrivial := false
+		for _, row := range t {
+			for _, s := range row {
+				if strings.ContainsAny(s, "|\n") {
+					nontrivial = true
+				}
+			}
+		}
+		c.Count(fmt.Sprintf("table rows=%d", min(len(t), 6)))
+		c.Count(fmt.Sprintf("table cols=%d", min(len(t[0]), 6)))
+		c.Case(encTable(t), nontrivial)
+		if i%2 == 0 {
+			st := genSpanTable(r)
+			for _, w := range []string{"docx", "odt", "html"} {
+				runSpanTable(c, w, st)
+			}
+			c.Count("span-table")
+			c.Case(encSpanTable(st), true)
+		}
+	}
+	// the reading spec itself: harness reader vs Lean reader on arbitrary pipe text (with backslashes)
+	atoms := []string{"|", "\\|", "\\", "\\\\", " ", "a", "-", ":", "---", "\n", "x y", "é"}
+	for i := 0; i < c.N(300, 5000); i++ {
+		r := c.Rng.Fork(uint64(2)<<40 | uint64(i))
+		var sb strings.Builder
+		for k := r.Range(0, 14); k > 0; k-- {
+			sb.WriteString(hx.Pick(r, atoms))
+		}
+		s := sb.String()
+		line := strings.ReplaceAll(s, "\n", " ")
+		c.Op("c15.splitrow "+hx.HexS(line), hx.HexList(GFMSplitRow(line))+" "+strconv.Itoa(len(GFMSplitRow(line))))
+		got, ok := GFMTable(strings.Split(s, "\n"))
+		c.Op("c15.gfm "+hx.HexS(s), encGrid(got, ok))
+		c.Count("reader-fuzz")
+	}
+}
+
+func Run(c *hx.Ctx) {
+	c.Rep.Rule = "direct: random tables (1..14 rows x 1..12 cols; cells from an alphabet with '|', newline, spaces, empty, unicode, markdown punctuation; no backslash) through all six ToMarkdown writers, docx/odt also with random ColSpan/vertical-merge cells; levels: the full box level -1..10 x offset -3..8 x max 0..7; documents: random block sequences (headings 1..6, paragraphs, nested lists depth<=3, tables with merges) written by independent DOCX/ODT/PPTX/HTML/XLSX writers under all Markdown options (metadata x TOC x offset -2..+7 x max 1..6, enumerated); non-trivial = table containing '|' or newline, document with a table/heading/list; distinct by canonical input"
+	direct(c)
+	levels(c)
+	documents(c)
+}
+
+// Replay re-runs one recorded failing case on the implementation.
+func Replay(c *hx.Ctx, kase map[string]interface{}) {
+	kind, _ := kase["kind"].(string)
+	switch kind {
+	case "table":
+		w, _ := kase["writer"].(string)
+		var t [][]string
+		for _, row := range kase["table"].([]interface{}) {
+			var cells []string
+			for _, x := range row.([]interface{}) {
+				cells = append(cells, x.(string))
+			}
+			t = append(t, cells)
+		}
+		runPlainTable(c, w, t, true)
+	case "span":
+		w, _ := kase["writer"].(string)
+		var t [][]Cell
+		for _, row := range kase["span"].([]interface{}) {
+			var cells []Cell
+			for _, x := range row.([]interface{}) {
+				m := x.(map[string]interface{})
+				cell := Cell{}
+				cell.Text, _ = m["Text"].(string)
+				if f, ok := m["ColSpan"].(float64); ok {
+					cell.ColSpan = int(f)
+				}
+				cell.VCont, _ = m["VCont"].(bool)
+				cells = append(cells, cell)
+			}
+			t = append(t, cells)
+		}
+		runSpanTable(c, w, t)
+	case "level":
+		levels(c)
+	case "doc":
+		idx, _ := kase["index"].(float64)
+		format, _ := kase["format"].(string)
+		runDocument(c, int(idx), format, true)
+	default:
+		direct(c)
+	}
+}
